@@ -1399,6 +1399,8 @@ def _model(s, names):
                 d[n] = str(v)
         elif z3.is_true(v) or z3.is_false(v):
             d[n] = z3.is_true(v)
+        elif z3.is_string_value(v):
+            d[n] = v.as_string()
         elif z3.is_rational_value(v):
             d[n] = '%s/%s' % (v.numerator_as_long(), v.denominator_as_long())
         else:
